@@ -93,3 +93,311 @@ pub mod probe {
         db.pager().read().verif_cache_stats()
     }
 }
+
+/// B+tree over a real pager on a real file, driven directly; plus a structural dump.
+pub mod btree {
+    use crate::{
+        DBConfig,
+        io::pager::{Pager, SharedPager},
+        schema::{Column, Schema},
+        storage::{
+            BtreeMetadata,
+            core::traits::BtreeOps,
+            page::{BtreePage, OverflowPage},
+            tuple::{Row, Tuple, TupleBuilder, TupleHeader},
+        },
+        tree::{
+            accessor::{BtreeReadAccessor, BtreeWriteAccessor},
+            bplustree::{Btree, SearchResult},
+            cell_ops::Reassembler,
+        },
+        types::{Blob, DataType, DataTypeKind, Int64, PageId, UInt64},
+    };
+    use std::io::Write;
+    use std::path::Path;
+
+    #[derive(Clone, Copy, Debug, PartialEq, Eq)]
+    pub enum KeyKind {
+        U64,
+        I64,
+        Text,
+    }
+
+    #[derive(Clone, Debug, PartialEq, Eq)]
+    pub enum Key {
+        U(u64),
+        I(i64),
+        T(String),
+    }
+
+    pub struct Tree {
+        pager: SharedPager,
+        root: PageId,
+        schema: Schema,
+        kind: KeyKind,
+        min_keys: usize,
+        siblings: usize,
+    }
+
+    #[derive(Clone, Debug)]
+    pub struct CellInfo {
+        pub left_child: Option<u64>,
+        pub overflow: Vec<u64>,
+        pub key: Key,
+        pub payload_len: usize,
+    }
+
+    #[derive(Clone, Debug)]
+    pub struct PageInfo {
+        pub id: u64,
+        pub depth: usize,
+        pub is_leaf: bool,
+        pub right_child: Option<u64>,
+        pub next: Option<u64>,
+        pub prev: Option<u64>,
+        pub num_slots: usize,
+        pub free_space: u32,
+        pub cells: Vec<CellInfo>,
+    }
+
+    #[derive(Clone, Debug, Default)]
+    pub struct Dump {
+        /// pages in depth-first, left-to-right order
+        pub pages: Vec<PageInfo>,
+        pub total_pages: u64,
+        pub free_list: Vec<u64>,
+        pub free_head: Option<u64>,
+        pub free_tail: Option<u64>,
+        /// set when the walk had to stop (cycle, unreadable page, ...)
+        pub error: Option<String>,
+    }
+
+    fn dt(kind: KeyKind, k: &Key) -> DataType {
+        match (kind, k) {
+            (KeyKind::U64, Key::U(v)) => DataType::BigUInt(UInt64(*v)),
+            (KeyKind::I64, Key::I(v)) => DataType::BigInt(Int64(*v)),
+            (KeyKind::Text, Key::T(s)) => DataType::Blob(Blob::from(s.as_str())),
+            _ => panic!("key kind mismatch"),
+        }
+    }
+
+    impl Tree {
+        pub fn create(path: &Path, cfg: DBConfig, kind: KeyKind) -> std::io::Result<Tree> {
+            let pager = SharedPager::from(Pager::from_config(cfg, path)?);
+            let root = pager.write().allocate_page::<BtreePage>()?;
+            let kt = match kind {
+                KeyKind::U64 => DataTypeKind::BigUInt,
+                KeyKind::I64 => DataTypeKind::BigInt,
+                KeyKind::Text => DataTypeKind::Blob,
+            };
+            let schema = Schema::new_table(vec![
+                Column::new_with_defaults(kt, "id"),
+                Column::new_with_defaults(DataTypeKind::Blob, "data"),
+            ]);
+            Ok(Tree { pager, root, schema, kind, min_keys: cfg.min_keys_per_page, siblings: cfg.num_siblings_per_side })
+        }
+
+        fn tuple(&self, key: &Key, payload: &str) -> Result<Tuple, String> {
+            let row = Row::new(Box::new([dt(self.kind, key), DataType::Blob(Blob::from(payload))]));
+            TupleBuilder::from_schema(&self.schema).build(&row, 1).map_err(|e| e.to_string())
+        }
+
+        fn key_bytes(&self, key: &Key) -> Result<Box<[u8]>, String> {
+            use crate::core::SerializableType;
+            // the serialized key, as the tree's comparator reads it
+            match (self.kind, key) {
+                (KeyKind::U64, Key::U(v)) => UInt64(*v).serialize().map_err(|e| e.to_string()),
+                (KeyKind::I64, Key::I(v)) => Int64(*v).serialize().map_err(|e| e.to_string()),
+                (KeyKind::Text, Key::T(s)) => Blob::from(s.as_str()).serialize().map_err(|e| e.to_string()),
+                _ => Err("key kind mismatch".into()),
+            }
+        }
+
+        fn wtree(&self) -> Btree<BtreeWriteAccessor> {
+            Btree::new(self.root, self.pager.clone(), self.min_keys, self.siblings).with_accessor(BtreeWriteAccessor::new())
+        }
+        fn rtree(&self) -> Btree<BtreeReadAccessor> {
+            Btree::new(self.root, self.pager.clone(), self.min_keys, self.siblings).with_accessor(BtreeReadAccessor::new())
+        }
+
+        pub fn insert(&mut self, key: &Key, payload: &str) -> Result<(), String> {
+            let t = self.tuple(key, payload)?;
+            self.wtree().insert(self.root, t, &self.schema).map_err(|e| e.to_string())
+        }
+        pub fn upsert(&mut self, key: &Key, payload: &str) -> Result<(), String> {
+            let t = self.tuple(key, payload)?;
+            self.wtree().upsert(self.root, t, &self.schema).map(|_| ()).map_err(|e| e.to_string())
+        }
+        pub fn update(&mut self, key: &Key, payload: &str) -> Result<(), String> {
+            let t = self.tuple(key, payload)?;
+            self.wtree().update(self.root, t, &self.schema).map_err(|e| e.to_string())
+        }
+        pub fn remove(&mut self, key: &Key) -> Result<(), String> {
+            let kb = self.key_bytes(key)?;
+            self.wtree().remove(self.root, &kb, &self.schema).map_err(|e| e.to_string())
+        }
+        pub fn get(&mut self, key: &Key) -> Result<Option<String>, String> {
+            let kb = self.key_bytes(key)?;
+            let mut t = self.rtree();
+            match t.search(&kb, &self.schema).map_err(|e| e.to_string())? {
+                SearchResult::Found(pos) => {
+                    let tup = t.get_tuple_at_unchecked(pos, &self.schema).map_err(|e| e.to_string())?;
+                    let row = Row::from_bytes_checked(tup.effective_data(), &self.schema).map_err(|e| e.to_string())?;
+                    Ok(Some(row[1].to_string()))
+                }
+                SearchResult::NotFound(_) => Ok(None),
+            }
+        }
+        /// All (key, payload) pairs in scan order.
+        pub fn scan(&mut self, forward: bool) -> Result<Vec<(Key, String)>, String> {
+            let mut t = self.rtree();
+            if t.is_empty().map_err(|e| e.to_string())? {
+                return Ok(vec![]);
+            }
+            let it = if forward { t.iter_forward() } else { t.into_iter_backward() }.map_err(|e| e.to_string())?;
+            let positions: Vec<_> = if forward { it.collect() } else { it.rev().collect() };
+            let mut out = vec![];
+            let mut t2 = self.rtree();
+            for p in positions {
+                let pos = p.map_err(|e| e.to_string())?;
+                let tup = t2.get_tuple_at_unchecked(pos, &self.schema).map_err(|e| e.to_string())?;
+                let row = Row::from_bytes_checked(tup.effective_data(), &self.schema).map_err(|e| e.to_string())?;
+                out.push((self.key_of(&row[0]), row[1].to_string()));
+            }
+            Ok(out)
+        }
+        fn key_of(&self, d: &DataType) -> Key {
+            match d {
+                DataType::BigUInt(v) => Key::U(v.0),
+                DataType::BigInt(v) => Key::I(v.0),
+                other => Key::T(other.to_string()),
+            }
+        }
+        pub fn checkpoint(&mut self) -> Result<(), String> {
+            self.pager.write().flush().map_err(|e| e.to_string())
+        }
+
+        /// Structural dump of the tree (through the pager) and of the free list.
+        pub fn dump(&mut self) -> Dump {
+            let mut d = Dump::default();
+            {
+                let p = self.pager.read();
+                let h = p.header_unchecked();
+                d.total_pages = h.total_pages;
+                d.free_head = h.first_free_page;
+                d.free_tail = h.last_free_page;
+            }
+            // free list
+            let mut cur = d.free_head;
+            let mut guard = 0u64;
+            while let Some(p) = cur {
+                guard += 1;
+                if guard > d.total_pages + 2 {
+                    d.error = Some("free list does not terminate".into());
+                    break;
+                }
+                d.free_list.push(p);
+                match self.pager.write().with_page::<OverflowPage, _, _>(p, |o| o.next()) {
+                    Ok(n) => cur = n,
+                    Err(e) => {
+                        d.error = Some(format!("free page {p} unreadable: {e}"));
+                        break;
+                    }
+                }
+            }
+            let root = self.root;
+            self.walk(root, 0, &mut d);
+            d
+        }
+
+        fn walk(&mut self, id: PageId, depth: usize, d: &mut Dump) {
+            if d.error.is_some() {
+                return;
+            }
+            if depth > 32 || d.pages.len() as u64 > d.total_pages + 2 {
+                d.error = Some(format!("walk does not terminate at page {id}"));
+                return;
+            }
+            let schema = self.schema.clone();
+            let pager = self.pager.clone();
+            let kind = self.kind;
+            let info = self.pager.write().with_page::<BtreePage, _, _>(id, |p| {
+                let mut cells = vec![];
+                for i in 0..p.num_slots() {
+                    let c = p.cell(i);
+                    cells.push((c.metadata().left_child(), c.metadata().is_overflow(), c.overflow_page(), c.effective_data().to_vec()));
+                }
+                (p.is_leaf(), p.metadata().right_child(), p.metadata().next_sibling(), p.metadata().prev_sibling(), p.num_slots(), p.metadata().free_space(), cells)
+            });
+            let (is_leaf, right, next, prev, num_slots, free_space, raw) = match info {
+                Ok(x) => x,
+                Err(e) => {
+                    d.error = Some(format!("page {id} unreadable: {e}"));
+                    return;
+                }
+            };
+            let mut cells = vec![];
+            for (left, is_ovf, ovf, bytes) in raw {
+                // overflow chain
+                let mut chain = vec![];
+                let mut full = bytes.clone();
+                if is_ovf {
+                    full.truncate(bytes.len().saturating_sub(std::mem::size_of::<PageId>()));
+                    let mut cur = ovf;
+                    let mut guard = 0;
+                    while let Some(pg) = cur {
+                        guard += 1;
+                        if guard > 100_000 {
+                            d.error = Some(format!("overflow chain of page {id} does not terminate"));
+                            return;
+                        }
+                        chain.push(pg);
+                        match pager.write().with_page::<OverflowPage, _, _>(pg, |o| (o.next(), o.effective_data().to_vec())) {
+                            Ok((n, data)) => {
+                                full.extend_from_slice(&data);
+                                cur = n;
+                            }
+                            Err(e) => {
+                                d.error = Some(format!("overflow page {pg} unreadable: {e}"));
+                                return;
+                            }
+                        }
+                    }
+                }
+                let _ = Reassembler::new(pager.clone());
+                let off = TupleHeader::SIZE + schema.num_values().div_ceil(8);
+                let key = match schema.key(0).unwrap().datatype().deserialize(&full, off) {
+                    Ok((r, _)) => {
+                        let owned = r.to_owned().unwrap_or(DataType::Null);
+                        match (kind, &owned) {
+                            (KeyKind::U64, DataType::BigUInt(v)) => Key::U(v.0),
+                            (KeyKind::I64, DataType::BigInt(v)) => Key::I(v.0),
+                            _ => Key::T(owned.to_string()),
+                        }
+                    }
+                    Err(e) => {
+                        d.error = Some(format!("key of a cell of page {id} undecodable: {e}"));
+                        return;
+                    }
+                };
+                cells.push(CellInfo { left_child: left, overflow: chain, key, payload_len: full.len() });
+            }
+            let children: Vec<u64> = cells.iter().filter_map(|c| c.left_child).collect();
+            d.pages.push(PageInfo { id, depth, is_leaf, right_child: right, next, prev, num_slots, free_space, cells });
+            if !is_leaf {
+                for c in children {
+                    self.walk(c, depth + 1, d);
+                }
+                if let Some(r) = right {
+                    self.walk(r, depth + 1, d);
+                }
+            }
+        }
+    }
+
+    impl Drop for Tree {
+        fn drop(&mut self) {
+            let _ = self.pager.write().flush();
+        }
+    }
+}
